@@ -447,6 +447,9 @@ impl PartialOrd for Natural {
         if l_bw != r_bw {
             return Some(l_bw.cmp(&r_bw));
         }
+        if l_bw == 0 {
+            return Some(Ordering::Equal); // both are zero
+        }
 
         let (&l_msd, mut l_digits) = l_digits.split_last().unwrap();
         let (&r_msd, mut r_digits) = r_digits.split_last().unwrap();
